@@ -1,0 +1,50 @@
+// Copyright 2026 The Mellium Contributors.
+// Use of this source code is governed by the BSD 2-clause
+// license that can be found in the LICENSE file.
+
+//go:build verif
+
+// This file contains no code. It carries machine-checked contracts (lines
+// starting with "//@") read by the verification tooling.
+
+package stream
+
+// ---------------------------------------------------------------------------
+// C08: stream-level input never reaches handlers
+
+//@ spec xmlWS(c byte) bool = c == ' ' || c == '\t' || c == '\r' || c == '\n'
+
+//@ func isWhitespace
+//@   ensures[C08] result <==> (forall i int :: 0 <= i && i < len(b) ==> xmlWS(b[i]))
+
+// The filtering reader, as a case table over the token delivered by the
+// underlying reader (inTok, inErr).
+//@ func (*reader).Token
+//@   ghost inTok xml.Token
+//@   ghost inErr error
+//@   ghost d0 uint64
+//@   ghost neg0 bool
+//@   ghost ws0 bool
+//@   callsite (encoding/xml.TokenReader).Token#1
+//@     before: d0 = r.depth
+//@     before: neg0 = r.negotiating
+//@     before: ws0 = r.ws
+//@     after: inTok = ret0
+//@     after: inErr = ret1
+// the wrapped reader does not reach back into this reader
+//@     assume[C08] r.depth == d0 && r.negotiating == neg0 && r.ws == ws0
+//@   ghost d1 uint64
+//@   callsite (*encoding/xml.Decoder).DecodeElement#1
+//@     before: d1 = r.depth
+//@     assume[C08] r.depth == d1
+//@   ensures[C08] inErr != nil ==> result0 == nil && result1 == inErr
+//@   ensures[C08] inErr == nil && (typeof(inTok) == xml.ProcInst || typeof(inTok) == xml.Comment || typeof(inTok) == xml.Directive) ==> result0 == nil && result1 != nil
+//@   ensures[C08] inErr == nil && typeof(inTok) == xml.StartElement && inTok.(xml.StartElement).Name.Space == "http://etherx.jabber.org/streams" && !(ws0 && !neg0 && inTok.(xml.StartElement).Name.Space == wsNamespace) ==> (inTok.(xml.StartElement).Name.Local == "stream" && neg0 ==> result0 == inTok && result1 == nil) && (inTok.(xml.StartElement).Name.Local == "stream" && !neg0 ==> result0 == nil && result1 == ErrUnexpectedRestart) && (inTok.(xml.StartElement).Name.Local == "error" ==> result0 == nil && result1 != nil) && (inTok.(xml.StartElement).Name.Local != "stream" && inTok.(xml.StartElement).Name.Local != "error" ==> result0 == nil && result1 == ErrUnknownStreamElement)
+//@   ensures[C08] inErr == nil && typeof(inTok) == xml.StartElement && ws0 && !neg0 && inTok.(xml.StartElement).Name.Space == wsNamespace ==> result0 == nil && result1 == ErrUnexpectedRestart
+//@   ensures[C08] inErr == nil && typeof(inTok) == xml.StartElement && inTok.(xml.StartElement).Name.Space != "http://etherx.jabber.org/streams" && !(ws0 && !neg0 && inTok.(xml.StartElement).Name.Space == wsNamespace) ==> result0 == inTok && result1 == nil
+//@   ensures[C08] inErr == nil && typeof(inTok) == xml.StartElement ==> r.depth == d0 + 1
+//@   ensures[C08] inErr == nil && typeof(inTok) == xml.EndElement ==> r.depth == d0 - 1
+//@   ensures[C08] inErr == nil && typeof(inTok) == xml.EndElement && inTok.(xml.EndElement).Name.Space == "http://etherx.jabber.org/streams" ==> result0 == nil && (inTok.(xml.EndElement).Name.Local == "stream" ==> result1 == io.EOF) && (inTok.(xml.EndElement).Name.Local != "stream" ==> result1 != nil && result1 != io.EOF)
+//@   ensures[C08] inErr == nil && typeof(inTok) == xml.EndElement && inTok.(xml.EndElement).Name.Space != "http://etherx.jabber.org/streams" ==> result0 == inTok && result1 == nil
+//@   ensures[C08] inErr == nil && typeof(inTok) == xml.CharData && d0 == 0 && !(forall i int :: 0 <= i && i < len(inTok.(xml.CharData)) ==> xmlWS(inTok.(xml.CharData)[i])) ==> result1 != nil
+//@   ensures[C08] inErr == nil && typeof(inTok) == xml.CharData && (d0 != 0 || (forall i int :: 0 <= i && i < len(inTok.(xml.CharData)) ==> xmlWS(inTok.(xml.CharData)[i]))) ==> result0 == inTok && result1 == nil
